@@ -532,6 +532,11 @@ def run(tree, rep, tier):
     from .. import payload
     payload.check(tree, rep, "C03.R7", "dropped, or never delivered together with everything behind it (a record skipped)")
     r6(tree, rep, tier)
+    # round 9 (additive paths / optimisations)
+    from .. import round9
+    round9.single_reader(tree, rep, "C03.R9")
+    from .C02 import echo_filter
+    echo_filter(prog, rep, "C03.R10")
 
 
 _SEND = "src/wormhole/_send.py"
